@@ -27,10 +27,10 @@
 #include "convert.h"
 
 #include "vf.h"
+#include "c07_oracle.h"
 
 const char *vf_name = "c07_value";
 
-typedef __int128 i128;
 typedef int (*conv_fn)(const void *, MPT_TYPE(type), void *);
 
 static const char SRC[] = "cbynqiuxtfde";          /* 12 source types */
@@ -41,115 +41,6 @@ enum { TOwnVec = NSCAL, TOtherVec, TGenVec, TJunk, NTGT };
 #define NAPI 4
 static const char *apiname[NAPI] = { "mpt_data_convert_*", "mpt_data_converter", "mpt_value_convert", "mpt_iterator_consume" };
 static const char *apikey[NAPI] = { "data_convert", "data_converter", "value_convert", "iterator_consume" };
-
-static size_t tsize(int t)
-{
-	switch (t) {
-	case 'c': return sizeof(char);
-	case 'b': case 'y': return 1;
-	case 'n': case 'q': return 2;
-	case 'i': case 'u': return 4;
-	case 'x': case 't': return 8;
-	case 'l': return sizeof(long);
-	case 'f': return sizeof(float);
-	case 'd': return sizeof(double);
-	case 'e': return sizeof(long double);
-	default: return 0;
-	}
-}
-static int is_float(int t) { return t == 'f' || t == 'd' || t == 'e'; }
-static int is_unsigned(int t) { return t == 'y' || t == 'q' || t == 'u' || t == 't'; }
-
-/* a number: integer (exact) or floating */
-enum { NInt, NFin, NInf, NNan };
-typedef struct { int cls; i128 i; long double f; } num;
-
-static num rd(int t, const void *p)
-{
-	num n = { NInt, 0, 0 };
-	switch (t) {
-	case 'c': { char v; memcpy(&v, p, 1); n.i = v; break; }
-	case 'b': { int8_t v; memcpy(&v, p, 1); n.i = v; break; }
-	case 'y': { uint8_t v; memcpy(&v, p, 1); n.i = v; break; }
-	case 'n': { int16_t v; memcpy(&v, p, 2); n.i = v; break; }
-	case 'q': { uint16_t v; memcpy(&v, p, 2); n.i = v; break; }
-	case 'i': { int32_t v; memcpy(&v, p, 4); n.i = v; break; }
-	case 'u': { uint32_t v; memcpy(&v, p, 4); n.i = v; break; }
-	case 'x': { int64_t v; memcpy(&v, p, 8); n.i = v; break; }
-	case 't': { uint64_t v; memcpy(&v, p, 8); n.i = v; break; }
-	case 'l': { long v; memcpy(&v, p, sizeof(v)); n.i = v; break; }
-	case 'f': { float v; memcpy(&v, p, sizeof(v)); n.f = v; n.cls = isnan(v) ? NNan : isinf(v) ? NInf : NFin; break; }
-	case 'd': { double v; memcpy(&v, p, sizeof(v)); n.f = v; n.cls = isnan(v) ? NNan : isinf(v) ? NInf : NFin; break; }
-	case 'e': { long double v; memcpy(&v, p, sizeof(v)); n.f = v; n.cls = isnan(v) ? NNan : isinf(v) ? NInf : NFin; break; }
-	}
-	if (n.cls == NInt) n.f = (long double) n.i;   /* exact: |i| <= 2^64 - 1 */
-	return n;
-}
-static void i128str(char *dst, size_t n, i128 v)
-{
-	char tmp[48]; int p = 47, neg = v < 0;
-	unsigned __int128 u = neg ? -(unsigned __int128) v : (unsigned __int128) v;
-	tmp[p] = 0;
-	do { tmp[--p] = (char) ('0' + (int) (u % 10)); u /= 10; } while (u);
-	if (neg) tmp[--p] = '-';
-	snprintf(dst, n, "%s", tmp + p);
-}
-static char nbuf1[80], nbuf2[80];
-static const char *numstr(char *dst, num n)
-{
-	if (n.cls == NInt) i128str(dst, 80, n.i);
-	else snprintf(dst, 80, "%.21Lg (%La)", n.f, n.f);
-	return dst;
-}
-
-/* target range of integer types */
-static void irange(int t, i128 *lo, i128 *hi)
-{
-	switch (t) {
-	case 'c': *lo = CHAR_MIN; *hi = CHAR_MAX; break;
-	case 'b': *lo = INT8_MIN; *hi = INT8_MAX; break;
-	case 'y': *lo = 0; *hi = UINT8_MAX; break;
-	case 'n': *lo = INT16_MIN; *hi = INT16_MAX; break;
-	case 'q': *lo = 0; *hi = UINT16_MAX; break;
-	case 'i': *lo = INT32_MIN; *hi = INT32_MAX; break;
-	case 'u': *lo = 0; *hi = UINT32_MAX; break;
-	case 'x': *lo = INT64_MIN; *hi = INT64_MAX; break;
-	case 't': *lo = 0; *hi = (i128) UINT64_MAX; break;
-	case 'l': *lo = LONG_MIN; *hi = LONG_MAX; break;
-	default: *lo = 0; *hi = -1;
-	}
-}
-
-/* round-to-nearest image of exact value v in floating type t (may be +-inf) */
-static long double fround(int t, long double v)
-{
-	volatile float f; volatile double d;
-	switch (t) {
-	case 'f': f = (float) v; return f;
-	case 'd': d = (double) v; return d;
-	default: return v;
-	}
-}
-static long double fnext(int t, long double v, int up)
-{
-	switch (t) {
-	case 'f': return nextafterf((float) v, up ? INFINITY : -INFINITY);
-	case 'd': return nextafter((double) v, up ? INFINITY : -INFINITY);
-	default: return nextafterl(v, up ? INFINITY : -INFINITY);
-	}
-}
-/* self-check of the oracle: e is a value of type t nearest to v */
-static void oracle_nearest(int t, long double v, long double e)
-{
-	long double de, dl, dh;
-	if (isinf(e) || isnan(e) || isnan(v) || isinf(v)) return;
-	de = fabsl(e - v);
-	dl = fabsl(fnext(t, e, 0) - v);
-	dh = fabsl(fnext(t, e, 1) - v);
-	if (de > dl || de > dh) {
-		vf_inconclusive("oracle inconsistency: %La rounded to type %c gives %La, a neighbour is closer", v, t, e);
-	}
-}
 
 /* ------------------------------------------------------- API under test -- */
 static conv_fn direct(int s, const char **name)
@@ -203,6 +94,7 @@ static struct {
 	uint64_t calls, accepted, refused, compared, refused_unrepresentable, refused_representable,
 	         float_checked, query_agree, vector_ok, junk_refused, refusal_wrote, code_differs;
 } cnt;
+static c07_stats jst;
 static char keybuf[96];
 static const char *mkkey(int api, const char *what)
 {
@@ -210,22 +102,6 @@ static const char *mkkey(int api, const char *what)
 	return keybuf;
 }
 #define SENT 0xA5
-
-/* can the number be represented in integer/char type t? */
-static int int_representable(num v, int t)
-{
-	i128 lo, hi, iv;
-	irange(t, &lo, &hi);
-	if (v.cls == NInt) iv = v.i;
-	else {
-		if (v.cls != NFin) return 0;
-		if (v.f != truncl(v.f)) return 0;
-		if (v.f < -18446744073709551616.0L || v.f > 18446744073709551616.0L) return 0;
-		iv = (i128) v.f;
-	}
-	if (t == 'c') return iv >= lo && iv <= hi;  /* may still be refused (non-printable) */
-	return iv >= lo && iv <= hi;
-}
 
 /*
  * one evaluation: source value (raw bytes at exact-size block `from`), target
@@ -258,51 +134,8 @@ static void evaluate(int api, int s, const void *from, int tclass, MPT_TYPE(type
 		VF_CHECK((rp >= 0) == (rq >= 0), mkkey(api, "query-differs"), "%s: with destination %d, without destination %d", ctx, rp, rq);
 		cnt.query_agree++;
 		if (rp != rq) cnt.code_differs++;
-		if (rp < 0) {
-			int repr = is_float(t) ? 1 : int_representable(v, t);
-			if (repr) cnt.refused_representable++; else cnt.refused_unrepresentable++;
-			return;
-		}
-		if (!is_float(t)) {
-			num r = rd(t, dest);
-			i128 lo, hi;
-			irange(t, &lo, &hi);
-			(void) lo; (void) hi;
-			if (v.cls == NInt) {
-				VF_CHECK(r.i == v.i, mkkey(api, is_unsigned(t) && v.i < 0 ? "sign-lost" : "value-changed"),
-				         "%s: accepted (%d), target holds %s", ctx, rp, numstr(nbuf2, r));
-			} else {
-				VF_CHECK(v.cls == NFin, mkkey(api, "nonfinite-to-integer"), "%s: accepted (%d), target holds %s", ctx, rp, numstr(nbuf2, r));
-				VF_CHECK(v.f == (long double) r.i, mkkey(api, "value-changed"), "%s: accepted (%d), target holds %s", ctx, rp, numstr(nbuf2, r));
-			}
-			cnt.compared++;
-			return;
-		}
-		/* floating target */
-		{
-			num r = rd(t, dest);
-			long double e;
-			if (v.cls == NNan) {
-				VF_CHECK(r.cls == NNan, mkkey(api, "nan-became-number"), "%s: accepted (%d), target holds %s", ctx, rp, numstr(nbuf2, r));
-				cnt.compared++;
-				return;
-			}
-			if (v.cls == NInf) {
-				VF_CHECK(r.cls == NInf && (r.f > 0) == (v.f > 0), mkkey(api, "infinity-changed"), "%s: accepted (%d), target holds %s", ctx, rp, numstr(nbuf2, r));
-				cnt.compared++;
-				return;
-			}
-			e = fround(t, v.f);
-			oracle_nearest(t, v.f, e);
-			VF_CHECK(r.cls != NNan, mkkey(api, "finite-to-nan"), "%s: accepted (%d), target holds NaN", ctx, rp);
-			VF_CHECK(r.cls != NInf, mkkey(api, "finite-to-inf"), "%s: accepted (%d), target holds %s (largest finite value of the type is %Lg)",
-			         ctx, rp, numstr(nbuf2, r), t == 'f' ? (long double) FLT_MAX : t == 'd' ? (long double) DBL_MAX : LDBL_MAX);
-			VF_CHECK(!isinf(e), mkkey(api, "saturated"), "%s: accepted (%d), target holds %s, source is outside the type's range", ctx, rp, numstr(nbuf2, r));
-			VF_CHECK(r.f == e, mkkey(api, "not-nearest"), "%s: accepted (%d), target holds %s, nearest value of the type is %La", ctx, rp, numstr(nbuf2, r), e);
-			cnt.compared++;
-			cnt.float_checked++;
-			return;
-		}
+		c07_judge(apikey[api], ctx, v, t, dest, rp, &jst);
+		return;
 	}
 	if (tclass == TJunk) {
 		VF_CHECK(rp < 0 && rq < 0, mkkey(api, "accepted-unknown-target"), "%s: target is not a type (mpt_type_traits() == NULL), perform %d query %d", ctx, rp, rq);
@@ -552,6 +385,7 @@ void vf_case(uint64_t idx, vf_rng *r)
 	} else if (api >= 2) fname = apiname[api];
 
 	memset(&cnt, 0, sizeof(cnt));
+	memset(&jst, 0, sizeof(jst));
 	dest = vf_xalloc(dsize);
 	from = vf_xalloc(tsize(s));
 	{
@@ -577,18 +411,18 @@ void vf_case(uint64_t idx, vf_rng *r)
 	vf_count("eval:conversions", (uint64_t) nvals);
 	vf_count("eval:accepted", cnt.accepted);
 	vf_count("eval:refused", cnt.refused);
-	vf_count("monitor:target-value-compared", cnt.compared);
-	vf_count("monitor:float-nearest-checked", cnt.float_checked);
+	vf_count("monitor:target-value-compared", jst.compared);
+	vf_count("monitor:float-nearest-checked", jst.float_checked);
 	vf_count("monitor:query-verdict-compared", cnt.query_agree);
-	vf_count("monitor:refused-not-representable", cnt.refused_unrepresentable);
-	vf_count("observe:refused-although-representable", cnt.refused_representable);
+	vf_count("monitor:refused-not-representable", jst.refused_unrepresentable);
+	vf_count("observe:refused-although-representable", jst.refused_representable);
 	vf_count("monitor:vector-over-source", cnt.vector_ok);
 	vf_count("monitor:unknown-target-refused", cnt.junk_refused);
 	vf_count("observe:refusal-wrote-destination", cnt.refusal_wrote);
 	vf_count("observe:query-code-differs", cnt.code_differs);
 	if (tsize(s) <= 2) vf_count("exhaustive:blocks", 1);
-	if (cnt.compared || cnt.refused_unrepresentable) vf_nontrivial();
+	if (jst.compared || jst.refused_unrepresentable) vf_nontrivial();
 	if (idx % 61 == 3) vf_sample("%s source '%c' target 0x%zx block %d: %d values (%s), accepted %llu (all compared with the oracle), refused %llu (%llu not representable)",
 	          fname, s, (size_t) tcode, block, nvals, tsize(s) <= 2 ? "exhaustive range" : "boundary list + PRNG",
-	          (unsigned long long) cnt.accepted, (unsigned long long) cnt.refused, (unsigned long long) cnt.refused_unrepresentable);
+	          (unsigned long long) cnt.accepted, (unsigned long long) cnt.refused, (unsigned long long) jst.refused_unrepresentable);
 }
